@@ -5,10 +5,11 @@ cd /repo || exit 2
 git diff --quiet || { echo "repo dirty"; exit 2; }
 git apply "$patch" || { echo "patch does not apply"; exit 2; }
 cd /verif
+rm -rf /tmp/ev.bak; cp -r evidence /tmp/ev.bak
 ./check "$id" "$tier" | tail -8
 rc=$?
 git -C /repo checkout -- .
 # never keep replays or evidence produced against a mutated tree
-git -C /verif checkout -- evidence 2>/dev/null
+rm -rf /verif/evidence; mv /tmp/ev.bak /verif/evidence
 git -C /verif clean -fdq replays
 exit $rc
